@@ -341,14 +341,13 @@ theorem rootLoop_no_fuel_error {cfg : Config} {srv : Server} {v0 : Nat} (fuel : 
 structure RootOk (cfg : Config) (srv : Server) (shipped : Option Root) (st : St) (root : Root) (st' : St) : Prop where
   shipped : ∃ r0, shipped = some r0 ∧ rootVerify r0 .root r0.msg r0.sigs = true ∧ Chain cfg srv r0 root ∧
     root.version < r0.version + cfg.limits.maxRootUpdates ∧
-    (st'.slots = st.slots ∨
-      (st'.ds.ts = .absent ∧ st'.ds.snap = .absent ∧ st'.ds.tgt = st.ds.tgt ∧
-        (r0.keysIter .timestamp ≠ root.keysIter .timestamp ∨ r0.keysIter .snapshot ≠ root.keysIter .snapshot))) ∧
-    ((r0.keysIter .timestamp = root.keysIter .timestamp ∧ r0.keysIter .snapshot = root.keysIter .snapshot) →
-      st'.slots = st.slots)
+    (onlineKeysChanged (refRoot st.ds r0) root = false → st'.slots = st.slots) ∧
+    (onlineKeysChanged (refRoot st.ds r0) root = true →
+      st'.ds.ts = .absent ∧ st'.ds.snap = .absent ∧ st'.ds.tgt = st.ds.tgt)
   stops : Stops cfg srv root
   fresh : cfg.safe = true → cfg.now ≤ root.expires
   clockOk : cfg.safe = true → ∀ t0, st.ds.time = some t0 → t0 ≤ cfg.now
+  recorded : st'.ds.root = .doc root
 
 theorem loadRoot_ok {cfg : Config} {srv : Server} {shipped : Option Root} {st st' : St} {root : Root}
     (h : loadRoot cfg srv shipped st = (.ok root, st')) : RootOk cfg srv shipped st root st' := by
@@ -359,6 +358,7 @@ theorem loadRoot_ok {cfg : Config} {srv : Server} {shipped : Option Root} {st st
     split at h
     · simp at h
     · rename_i hv
+      simp only at h
       split at h
       · simp at h
       · rename_i r1 st1 hl
@@ -367,26 +367,25 @@ theorem loadRoot_ok {cfg : Config} {srv : Server} {shipped : Option Root} {st st
         · simp at h
         · rename_i st2 hg
           obtain ⟨g1, g2, g3⟩ := expiryGate_ok hg
+          have hsl : st2.slots = st.slots := g2.trans sl
           split at h
           · rename_i hk
             simp only [Prod.mk.injEq, Except.ok.injEq] at h
             obtain ⟨rfl, rfl⟩ := h
-            refine ⟨⟨r0, rfl, by simpa using hv, c, b, Or.inr ⟨rfl, rfl, ?_, ?_⟩, ?_⟩, s, fun hs => (g1 hs).1, ?_⟩
-            · simp only [clearOnline]
-              have := congrArg (·.2.2) g2; have := congrArg (·.2.2) sl; simp only [St.slots] at *; simp_all
-            · simp only [Bool.or_eq_true, bne_iff_ne, ne_eq] at hk; exact hk
-            · intro ⟨e1, e2⟩
-              simp only [Bool.or_eq_true, bne_iff_ne, ne_eq] at hk
-              rcases hk with hk | hk
-              · exact absurd e1 hk
-              · exact absurd e2 hk
+            refine ⟨⟨r0, rfl, by simpa using hv, c, b, ?_, ?_⟩, s, fun hs => (g1 hs).1, ?_, rfl⟩
+            · intro hf; rw [hk] at hf; cases hf
+            · intro _
+              refine ⟨rfl, rfl, ?_⟩
+              have := congrArg (·.2.2) hsl
+              simpa [recordRoot, clearOnline, St.slots] using this
             · intro hs t0 ht; rw [← tm] at ht; exact (g1 hs).2 t0 ht
           · rename_i hk
             simp only [Prod.mk.injEq, Except.ok.injEq] at h
             obtain ⟨rfl, rfl⟩ := h
-            refine ⟨⟨r0, rfl, by simpa using hv, c, b, Or.inl (g2.trans sl), fun _ => g2.trans sl⟩, s,
-              fun hs => (g1 hs).1, ?_⟩
-            intro hs t0 ht; rw [← tm] at ht; exact (g1 hs).2 t0 ht
+            refine ⟨⟨r0, rfl, by simpa using hv, c, b, ?_, ?_⟩, s, fun hs => (g1 hs).1, ?_, rfl⟩
+            · intro _; simpa [recordRoot, St.slots] using hsl
+            · intro ht; exact absurd ht hk
+            · intro hs t0 ht; rw [← tm] at ht; exact (g1 hs).2 t0 ht
 
 /-! ### Delegations -/
 
@@ -548,6 +547,7 @@ theorem loadTargets_ok {root : Root} {st st' : St} {t : Tgt}
                     simp only [St.req, storedBlocks, ho, hvo, Bool.true_and, decide_eq_true_eq, Tgt.doc] at hrb ⊢
                     omega
                   · simp only [Tgt.Good]
+                    unfold loadChildren at hsub
                     cases hd : doc.deleg with
                     | none =>
                       simp only [hd, Prod.mk.injEq, Except.ok.injEq] at hsub
